@@ -53,6 +53,14 @@ Exchange == \A t2 \in Tables :
                    a1 == ApAll(t, b1)       \* A after receiving B's reply
                IN SameView(a1, b1, Addrs)
 
+\* the record-level function that spec/ApaC01.tla reasons about symbolically (all of 0..65535) is what
+\* Members!Apply does to the row of a known address
+ApRec(r, x) == IF x.id # r.id THEN (IF Wins(r.id, x.id) THEN r ELSE x)
+               ELSE IF CanChange(r, x.inc, x.st) THEN Mem(r.id, x.inc, x.st) ELSE r
+AgreesWithRecordLevel ==
+    \A u \in Recs : LET row == RowOf(t, Addr(u.id)) IN
+                     row # <<>> => RowOf(Ap(t, u), Addr(u.id)) = <<ApRec(row[1], u)>>
+
 \* the cached count of active members is maintained correctly
 CountOk == \A u \in Recs : Apply(t, CountActive(t), u).nactive = CountActive(Ap(t, u))
 =============================================================================
